@@ -244,6 +244,7 @@ type InstanceResult struct {
 	Infeasible  int
 	Forks       int
 	Merges      int
+	LazyMerges  int
 	MergeAborts int
 	Steps       int64
 	VCs         int
